@@ -53,7 +53,7 @@ def src_once(check, proj):
         c = proj.cls(qn)
         f = proj.resolve(c, "add_source")
         inplace = []
-        for pattern in ([True, False, True], [False, True, False]):
+        for pattern in ([True, False, True], [False, True, False], [True, False, False], [False, False, True], [True, True, True]):
             A = Algebra()
             A.fold_enabled = False
             dom = GvnDomain(A)
@@ -180,9 +180,28 @@ def noz_geom(check, proj):
     A2 = D.alg
     cls = proj.cls("euler.nozzle")
     f = proj.resolve(cls, "initdisc")
+    # a test on the VALUES of the geometric term (np.all / np.any of it: "no section variation") is met with both outcomes: the
+    # formula must hold on each (one cell of constant section must not switch the term off everywhere)
+    used = []
+    outcome = [True]
+
+    D.interp.np_hooks["all"] = lambda args, kwargs: (used.append("all"), outcome[0])[1]
+    D.interp.np_hooks["any"] = lambda args, kwargs: (used.append("any"), outcome[0])[1]
     so = SelfObj(cls, {"sectionlaw": OpaqueFn("A", positive=True)})
     D.interp.call_function(f, [so, D.mesh])
     g = so.attrs.get("geomterm")
+    if used:
+        # the other outcome: whatever it stores must be the same term
+        outcome[0] = False
+        so2 = SelfObj(cls, {"sectionlaw": OpaqueFn("A", positive=True)})
+        D.interp.call_function(f, [so2, D.mesh])
+        g2 = so2.attrs.get("geomterm")
+        same = isinstance(g, SArr) and isinstance(g2, SArr) and len(g.segs) == len(g2.segs) == 1 and A2.equal(g.segs[0][2], g2.segs[0][2])
+        # (np.any(...) False says EVERY entry vanishes: storing zeros there stores the same values)
+        allzero = set(used) == {"any"} and isinstance(g2, SArr) and len(g2.segs) == 1 and g2.segs[0][2].is_zero()
+        if not same and not allzero:
+            check.violation("NOZ-GEOM", f.qualname, "the geometric term depends on a REDUCTION over its own values (np.all / np.any of the array, line %s): one outcome stores %s, the other %s -- a property of one cell (a cell of constant section has a zero term) decides the term of every cell" % (getattr(D.interp.dom, "cur_line", "?"), A2.show(g.segs[0][2], 60) if isinstance(g, SArr) else g, A2.show(g2.segs[0][2], 60) if isinstance(g2, SArr) else g2), f.loc(), key="G-reduction")
+            return
     if not (isinstance(g, SArr) and g.length == N and len(g.segs) == 1):
         check.violation("NOZ-GEOM", f.qualname, "geomterm is not one relation over the n cells: %s" % (g,), f.loc(), key="gshape")
         return
